@@ -130,6 +130,10 @@ pub struct CryptFilter {
     _other: Dictionary
 }
 
+/// The longest key any cipher of the standard security handler takes is the 32 bytes of AES-256
+/// (RC4 and AES-128 use at most 16: `Decoder::key`). ISO 32000 allows 40 to 128 bits for RC4.
+const MAX_KEY_SIZE: usize = 32;
+
 pub struct Decoder {
     key_size: usize,
     key: Vec<u8>, // maximum length
@@ -342,6 +346,10 @@ impl Decoder {
             let key_size = key_bits as usize / 8;
             if key_size == 0 {
                 // RC4 cannot be keyed with an empty key (`Rc4::new` asserts)
+                err!(other!("invalid key length {}", key_bits));
+            }
+            if key_size > MAX_KEY_SIZE {
+                // the key buffer is allocated with this size: /Length 2147483640 asked for 268 MB
                 err!(other!("invalid key length {}", key_bits));
             }
             // /EncryptMetadata has a meaning from revision 4 on only; before that everything is encrypted
